@@ -326,6 +326,9 @@ func (ex *Exec) symbolicInput(st *State, name string, t types.Type) *Term {
 
 func (ex *Exec) addAxioms(pkgPath string) {
 	for _, a := range ex.P.CS.Axioms {
+		if a.Only != "" && (ex.top == nil || !strings.Contains(ex.fnName(ex.top), a.Only)) {
+			continue
+		}
 		vars := map[string]tv{}
 		var bound []*Term
 		for _, sp := range a.Params {
